@@ -94,8 +94,18 @@ ConcVecs ==
 \* the twin constructor NewEncryptedLeaseSetFromDestination (signing type and blinded key taken from a Destination): same tuples, same judgement
 ViaDest(vs) == SeqMap(LAMBDA v : [ops |-> SeqMap(LAMBDA o : [o EXCEPT !.m = @ @@ [viadest |-> TRUE]], v.ops)], vs)
 NoKeyDelta(v) == "keydelta" \notin DOMAIN v.ops[1].m \/ v.ops[1].m.keydelta = 0      \* (a key of the wrong length cannot sit in a Destination)
+\* parts that only a parser produces: router addresses and an options mapping with their pairs in unsorted wire order
+UnsortedPairs == << << << 118 >>, << 50 >> >>, << << 104, 111, 115, 116 >>, << 49, 46, 50, 46, 51, 46, 52 >> >>, << << 97 >>, << 98 >> >> >>
+RawAddr(c) == EncRouterAddress(c, Zeros(8), << 78, 84, 67, 80, 50 >>, UnsortedPairs)
+RawVecs ==
+  << SB("NewRouterInfo", 7, [ct |-> 4, pairs |-> MapSets[5], naddr |-> 0, rawaddrs |-> << RawAddr(3) >>, pubsec |-> PadTo(T4, 8), pubneg |-> FALSE, pubns |-> 0], 64, << >>, 1101),
+     SB("NewRouterInfo", 7, [ct |-> 4, pairs |-> MapSets[3], naddr |-> 1, rawaddrs |-> << RawAddr(3), RawAddr(4) >>, pubsec |-> PadTo(T4, 8), pubneg |-> FALSE, pubns |-> 0], 64, << >>, 1102),
+     SB("NewLeaseSet2", 7, [ct |-> 4, pairs |-> << >>, rawopts |-> SerMapping(UnsortedPairs), rawpairs |-> UnsortedPairs, off |-> FALSE, tst |-> 7, flags |-> 0, nkeys |-> 1, nleases |-> 1, published |-> T4, expires |-> 600,
+                            offexpires |-> T4], 64, << 3 >>, 1103),
+     SB("NewLeaseSet2", 11, [ct |-> 4, pairs |-> << >>, rawopts |-> SerMapping(UnsortedPairs), rawpairs |-> UnsortedPairs, off |-> TRUE, tst |-> 7, flags |-> 1, nkeys |-> 2, nleases |-> 2, published |-> T4, expires |-> 600,
+                             offexpires |-> << 101, 36, 250, 0 >>], 64, << 3 >>, 1104) >>
 CONSTANT Part      \* "all" | "decl" (C09 replays the declared-type identities only)
-Vecs == IF Part = "decl" THEN DeclVecs ELSE ViaDest(ELSVecs \o SelectSeq(ELSDefectVecs, NoKeyDelta)) \o ConcVecs \o DeclVecs \o RIVecs \o LSVecs \o OffVecs \o ELSVecs \o ELSOddTransientVecs \o ELSMismatchVecs \o ELSDefectVecs \o LS2Vecs
+Vecs == IF Part = "decl" THEN DeclVecs ELSE RawVecs \o ViaDest(ELSVecs \o SelectSeq(ELSDefectVecs, NoKeyDelta)) \o ConcVecs \o DeclVecs \o RIVecs \o LSVecs \o OffVecs \o ELSVecs \o ELSOddTransientVecs \o ELSMismatchVecs \o ELSDefectVecs \o LS2Vecs
 VARIABLE done
 Init == done = FALSE
 Next == ~done /\ ndJsonSerialize(OutFile, Vecs) /\ PrintT(<< "GENERATED", Len(Vecs) >>) /\ done' = TRUE
